@@ -44,6 +44,10 @@ def gen_cases(tier, seed):
                     if not any(e_["p"] == cur for e_ in spec):
                         spec.append({"p": cur, "k": "d"})
                 p = cur + "/node%d" % j
+            if r.random() < 0.2:
+                # a name as long as a name may be (or nearly): nothing can be put next to it under a longer name
+                stem = "node%d-" % j
+                p = ("" if sole else "src/") + stem + "y" * (r.choice([247, 250, 254, 255]) - len(stem))
             e = {"p": p, "k": kind, "mode": r.choice([0o644, 0o600, 0o666, 0o777, 0o000, 0o640, 0o444, 0o622, r.randrange(0o1000), 0o1666, 0o2664, 0o4755, 0o7777])}
             if kind in ("chr", "blk"):
                 e["rdev"] = list(r.choice(DEVS))
